@@ -19,7 +19,7 @@ func (r *Run) Region(name string, entries []string, useCHA bool) map[*ssa.Functi
 			pre := strings.TrimSuffix(e, "*")
 			n := 0
 			for _, fnn := range r.P.FuncNames() {
-				if strings.HasPrefix(fnn, pre) && !strings.Contains(fnn, "$") {
+				if strings.HasPrefix(fnn, pre) && !strings.Contains(fnn, "$") && !strings.HasSuffix(fnn, ".init") {
 					if f := r.P.Fn(fnn); f != nil && f.Blocks != nil {
 						fns = append(fns, f)
 						n++
@@ -273,4 +273,61 @@ func mapLoopSig(rg *ssa.Range) string {
 		}
 	}
 	return fmt.Sprintf("[exit=%d append=%d sorted=%d]", exit, appends, sorted)
+}
+
+// frontierReadInventory lists, inside a region, every call that reads the node's *current* frontier
+// (chain-level getters) rather than the view a block or momentum is evaluated against.
+func (r *Run) frontierReadInventory(reg map[*ssa.Function]*ssa.Function) []lintHit {
+	var hits []lintHit
+	for f := range reg {
+		name := r.P.FuncName(f)
+		if name == "" || f.Blocks == nil {
+			continue
+		}
+		for _, cs := range r.P.Calls(f, false) {
+			switch cs.Method {
+			case "GetFrontierMomentumStore", "GetFrontierAccountStore", "FrontierPillarReader", "GetFrontierAccountBlock":
+			default:
+				continue
+			}
+			// a getter of a momentum-store view (store.Momentum.GetFrontierAccountBlock) reads that view, not the node
+			if strings.Contains(cs.Callee, "store.Momentum.") || strings.Contains(cs.Callee, "momentumStore).") {
+				continue
+			}
+			hits = append(hits, lintHit{Fn: name, What: "frontier-read:" + cs.Callee, File: cs.File, Line: cs.Line})
+		}
+	}
+	sort.Slice(hits, func(i, j int) bool {
+		if hits[i].Fn != hits[j].Fn {
+			return hits[i].Fn < hits[j].Fn
+		}
+		if hits[i].What != hits[j].What {
+			return hits[i].What < hits[j].What
+		}
+		return hits[i].Line < hits[j].Line
+	})
+	return hits
+}
+
+// ContextReads: every node-frontier read inside the region is triaged by symbol.
+func (r *Run) ContextReads(regionName string, reg map[*ssa.Function]*ssa.Function, table map[string]string, why string) {
+	seen := map[string]bool{}
+	for _, h := range r.frontierReadInventory(reg) {
+		key := h.Fn + "|" + h.What
+		if seen[key] {
+			continue
+		}
+		seen[key] = true
+		if reason, ok := table[key]; ok {
+			r.pass("K1-context-read", h.Fn, h.What, "triaged: "+reason, why, h.File, h.Line)
+			continue
+		}
+		chain := ""
+		for f := range reg {
+			if r.P.FuncName(f) == h.Fn {
+				chain = strings.Join(r.P.Chain(reg, f), " → ")
+			}
+		}
+		r.viol("K1-context-read", h.Fn, h.What, fmt.Sprintf("%s reads the node's current frontier (%s:%d) inside the %s region: the outcome depends on how far this node's chain has advanced when it evaluates the block, not on the ledger the block acknowledges; reached via %s", h.Fn, h.File, h.Line, regionName, chain), why, h.File, h.Line)
+	}
 }
